@@ -67,6 +67,8 @@ func keyError(e *Err) *kvrpcpb.KeyError {
 		return &kvrpcpb.KeyError{Abort: fmt.Sprintf("txn=%d on key=%q is already rolled back", e.LockTS, e.Key)}
 	case "already-committed":
 		return &kvrpcpb.KeyError{Abort: "txn already committed"}
+	case "assertion":
+		return &kvrpcpb.KeyError{AssertionFailed: &kvrpcpb.AssertionFailed{StartTs: e.LockTS, Key: e.Key, Assertion: e.Assertion}}
 	case "primary-mismatch":
 		return &kvrpcpb.KeyError{PrimaryMismatch: &kvrpcpb.PrimaryMismatch{LockInfo: lockInfo(e.Key, e.Lock)}}
 	}
@@ -221,7 +223,7 @@ func (sv *Server) SendRequest(_ context.Context, addr string, req *tikvrpc.Reque
 		}
 		res := st.Prewrite(r.Mutations, PrewriteOpts{StartTS: r.StartVersion, Primary: r.PrimaryLock, TTL: r.LockTtl, TxnSize: r.TxnSize, ForUpdateTS: r.ForUpdateTs,
 			MinCommitTS: r.MinCommitTs, Actions: r.PessimisticActions, Resolved: req.Context.GetResolvedLocks(), Async: r.UseAsyncCommit, Secondaries: r.Secondaries,
-			TryOnePC: r.TryOnePc, MaxCommitTS: r.MaxCommitTs, IsRetry: req.Context.GetIsRetryRequest(), SkipConstraintForUnlocked: true})
+			TryOnePC: r.TryOnePc, MaxCommitTS: r.MaxCommitTs, IsRetry: req.Context.GetIsRetryRequest(), SkipConstraintForUnlocked: true, AssertionLevel: r.AssertionLevel})
 		out := &kvrpcpb.PrewriteResponse{MinCommitTs: res.MinCommitTS, OnePcCommitTs: res.OnePCCommit}
 		// keep every KeyIsLocked error, otherwise only the first error (as TiKV and the mock do)
 		keys := make([]string, 0, len(res.Errs))
